@@ -19,11 +19,11 @@ ID = 'C15'
 RULE_T = ('Model-based histories: a pool of %d fixed module configurations (every transform kind; neighbouring entries are twins that differ only in '
         'mode / option; separate row-column filters; layouts, masks, scattering families) x 3 input recipes of different shapes; each search unit owns a few (configuration, input) pairs whose GOLDEN '
         'result was computed as the very first library call of a fresh interpreter. Hypothesis draws sequences of up to 40 '
-        'operations: construct(cfg, default dtype) (many instances coexist), call(instance, input, no_grad | requires_grad | '
+        'operations: construct(cfg, default dtype) (many instances coexist), construct-and-drop of any pool configuration, call(instance, input, no_grad | requires_grad | '
         'requires_grad+backward), a call with an input of the other precision (outcome ignored), concurrent batch of 2..8 calls on a thread pool (same or different instances), load of a filter '
         'table, lossless dtype round trip of an instance, the caller overwriting the filter arrays it handed to a constructor, call of an instance built in the other precision, drop(instance). '
         'Invariants after every step: arguments and coefficient lists bitwise unchanged (same list, same element identities); '
-        'result bitwise equal to the golden; module buffers/parameters bitwise unchanged; tensors returned by the last three calls still hold their values. The interpreter running a shard is never '
+        'result bitwise equal to the golden; module buffers/parameters bitwise unchanged; process-wide numerical switches (default dtype, grad mode, subnormal flushing, deterministic algorithms, numpy error state) unchanged; tensors returned by the last three calls still hold their values. The interpreter running a shard is never '
         'restarted, so state also carries over between histories. Non-trivial history = >= 2 different shapes through one '
         'instance and >= 2 configurations interleaved. Distinct = operation sequence.')
 ASSUMPTIONS = ['CPU kernels are bitwise deterministic across processes and threads (measured); a mismatch within 64 ulp of the largest value is counted '
@@ -143,6 +143,7 @@ def _case(draw, unit):
         st.tuples(st.just('other_dtype'), st.integers(0, n - 1)),
         st.tuples(st.just('wrong_dtype_call'), st.integers(0, 15)),
         st.tuples(st.just('scribble'), st.integers(0, 15)),
+        st.tuples(st.just('construct_only'), st.integers(0, len(POOL) - 1), st.sampled_from(['f32', 'f64'])),
         st.tuples(st.just('drop'), st.integers(0, 15)))
     first = [('construct', 0, 'f32'), ('construct', 2, 'f32')]
     ops = first + draw(st.lists(op, min_size=4, max_size=38))
@@ -234,6 +235,22 @@ class _Inst:
         self.snap = None
         self.shapes = set()
         self.converted = False
+
+
+def _global_state():
+    """Process-wide switches that change what later, unrelated calls compute: a library call or constructor must leave
+    them alone (the harness restores the default dtype itself after building a module)."""
+    tiny = torch.tensor([1e-40], dtype=torch.float32)
+    st_ = {'default_dtype': str(torch.get_default_dtype()), 'grad_enabled': torch.is_grad_enabled(),
+           'subnormals_flushed': bool((tiny * 1.0)[0] == 0) or bool((torch.tensor([1e-30]) * torch.tensor([1e-10]))[0] == 0),
+           'deterministic_algorithms': torch.are_deterministic_algorithms_enabled(),
+           'inference_mode': torch.is_inference_mode_enabled()}
+    try:
+        st_['float32_matmul_precision'] = torch.get_float32_matmul_precision()
+    except Exception:           # noqa
+        pass
+    st_['numpy_errstate'] = tuple(sorted(np.geterr().items()))
+    return st_
 
 
 def run_case(case):
@@ -330,9 +347,15 @@ def run_case(case):
 
     # all goldens this history can need, each from its own fresh interpreter, started in parallel
     goldens([_job(ci, ii, dt) for ci, ii in own if ii != 3 for dt in ('f32', 'f64')])
+    g0 = _global_state()
     for step, op in enumerate(case['ops']):
         kind = op[0]
         what = 'step %d %s' % (step, op)
+        if step:
+            gs = _global_state()
+            if gs != g0:
+                return r.fail('process_state_changed', 'step %d %s left process-wide numerical state changed: %s' % (
+                    step - 1, case['ops'][step - 1], ', '.join('%s %r -> %r' % (k, g0[k], gs[k]) for k in g0 if g0[k] != gs[k])))
         if kind == 'construct':
             ok, inst = lib(build, op[1] % len(own), op[2])
             if not ok:
@@ -413,6 +436,15 @@ def run_case(case):
                     if k not in now or now[k].dtype != v.dtype or not torch.equal(now[k], v):
                         return r.fail('module_state_changed', '%s: a call with a %s input changed the module buffer %s' %
                                       (what, other, k))
+        elif kind == 'construct_only':
+            # any configuration of the pool is constructed (not called, so no golden is needed) and dropped: a
+            # constructor must not leave anything behind that later calls of other modules can see
+            cfg_ = dict(POOL[op[1] % len(POOL)])
+            cfg_['size'] = [16, 16] if not cfg_['kind'].startswith('dwt1') else [32]
+            ok, e = lib(xf.build, cfg_, dwtu.tdt(op[2]))
+            if not ok:
+                return r.fail(e.bucket, 'construction raised: %s' % e)
+            r.label('construct_only')
         elif kind == 'scribble' and insts:
             # the caller reuses the arrays it handed to a constructor: the module must own copies (checked by the
             # buffer snapshot right here and by the goldens of all later calls)
@@ -430,6 +462,10 @@ def run_case(case):
                                           'constructor changed the module buffer %s' % (what, k))
         elif kind == 'drop' and len(insts) > 1:
             insts.pop(op[1] % len(insts))
+    gs = _global_state()
+    if gs != g0:
+        return r.fail('process_state_changed', 'the last step %s left process-wide numerical state changed: %s' % (
+            case['ops'][-1], ', '.join('%s %r -> %r' % (k, g0[k], gs[k]) for k in g0 if g0[k] != gs[k])))
     r.nontrivial = any(len(i.shapes) >= 2 for i in insts) and len(used_cfgs) >= 2
     r.label('multi_shape_instance' if any(len(i.shapes) >= 2 for i in insts) else None,
             'interleaved_cfgs' if len(used_cfgs) >= 2 else None)
